@@ -277,6 +277,35 @@ def run(ctx):
         ok = (adv == [width] and not via_take) or (not adv and len(via_take) == 1 and via_take[0][0] == "const" and via_take[0][2] == width)
         ctx.check(ok, "C04.2", "primitive:%s:advance" % nm, "position += %s (exactly what was consumed)" % width,
                   "%s advances the cursor by %s (take: %s), expected %s" % (nm, adv, [A.show(x) for x in via_take], width), pf.loc())
+    # ... and succeed exactly when that many octets remain: Some(..) behind `len >= position + n` (or `len > position + n - 1`),
+    # nothing stricter (a u16 in the last two octets of a message - every plain query ends with one - must be readable)
+    for nm, width in (("next_u8", 1), ("next_u16", 2), ("next_u32", 4), ("take", None)):
+        pf = prog.fn(CB + nm)
+        pr = A.Resolver(pf)
+        pc = A.Conds(pf, pr)
+        if any((t.get("callee") or "") == CB + "take" for b, t in pf.calls()) and nm != "take":
+            continue        # delegates to take(n): the advance rule above ties n to the width, take's own bound is checked below
+        somes = [b for b, e in A.return_exprs(pf, pr) if A.peel(e)[0] == "agg" and A.peel(e)[2] == "Some"]
+        need = None
+        for b in somes:
+            for fc in pc.facts_on_all_paths(b):
+                if fc[0] != "cmp":
+                    continue
+                for op, x, y in ((fc[1], fc[2], fc[3]), (A.SWAP[fc[1]], fc[3], fc[2])):
+                    if op in ("Gt", "Ge") and bool(Call("len", Path("param1.octets"))(x)):
+                        ly = P.lin(y)
+                        rest = {k: v for k, v in ly[0].items() if k != "param1.position"}
+                        if ly[0].get("param1.position") == 1:
+                            # smallest number of remaining octets that satisfies the guard
+                            extra = ly[1] + (1 if op == "Gt" else 0)
+                            need = (extra, tuple(sorted(rest.items())))
+        want = (width, ()) if width is not None else (0, (("param2", 1),))
+        ok = need == want or (need is None and not somes and False)
+        # `octets.get(position)?` needs no explicit comparison
+        if need is None and nm == "next_u8" and any((t.get("callee") or "").endswith("<impl [T]>::get") for b, t in pf.calls()):
+            ok = True
+        ctx.check(ok, "C04.2", "primitive:%s:bound" % nm, "succeeds exactly when %s octet(s) remain" % (width if width is not None else "n"),
+                  "%s succeeds only if %s octets remain beyond the position (expected %s)" % (nm, need, want), pf.loc())
     for nm in ("write_u16", "write_u32"):
         pf = prog.fn(WB + nm)
         pr = A.Resolver(pf)
@@ -465,3 +494,18 @@ def run(ctx):
             m[k] = pushes.get(A.strip_refs(A.peel(d[k])))
         want = {"questions": ("Question", 0), "answers": ("ResourceRecord", 1), "authority": ("ResourceRecord", 2), "additional": ("ResourceRecord", 3)}
         ctx.check(m == want, "C04.7", "message:reader-sections", "section k holds count_k elements decoded with its element decoder", "reader sections: %s" % m, md.loc(b, i))
+    # writer side: every element of every section is handed to its serialiser, sections in RFC order
+    msr_ = A.Resolver(ms)
+    secs = []
+    for b, t in ms.calls():
+        n = t.get("resolved") or t.get("callee") or ""
+        if n in (IMPL(SER, "Question", "serialise"), IMPL(SER, "ResourceRecord", "serialise")):
+            e = msr_.call_expr(t, b)
+            src = A.iter_elem_source(e[2][0])
+            secs.append((b, A.last_field(src) if src is not None else None, n.split("types::")[-1].split(">")[0]))
+    secs.sort(key=lambda x: sum(1 for y in secs if ms.dominates(y[0], x[0]) and y[0] != x[0]))
+    got = [(f, k) for b, f, k in secs]
+    ctx.check(got == [("questions", "Question"), ("answers", "ResourceRecord"), ("authority", "ResourceRecord"), ("additional", "ResourceRecord")],
+              "C04.7", "message:writer-sections", "each element of questions / answers / authority / additional is serialised, in that order",
+              "writer sections: %s" % got, ms.loc())
+
